@@ -229,8 +229,19 @@ def run(ctx, rep):
                         ok = True
                     else:
                         one_sided = "the override lookup is not keyed by the constant's name"
-        if ok:
-            rep.ok("C05.2", cons, "membership test on the override dictionary dominates the declared-value return", f.loc())
+        transformed = None
+        for r in over:
+            v = r.value
+            if isinstance(v, ast.Name):
+                d = fl.defs.get(v.id, [])
+                v = d[0] if len(d) == 1 else v
+            plain = isinstance(v, ast.Subscript) or (isinstance(v, ast.Call) and isinstance(v.func, ast.Attribute) and v.func.attr == "get") or isinstance(v, ast.Name)
+            if not plain:
+                transformed = r
+        if ok and transformed is not None:
+            rep.violation("C05.2", cons, f"the overriding value is transformed before it is substituted (`{ast.unparse(transformed.value)}`): the circuit is not evaluated with the constant bound to its overriding value (e.g. a float override of an int-declared constant is truncated)", f"{f.path}:{transformed.lineno}")
+        elif ok:
+            rep.ok("C05.2", cons, "membership test on the override dictionary dominates the declared-value return; the override is substituted as given", f.loc())
         elif one_sided:
             rep.violation("C05.2", cons, one_sided, f.loc())
         else:
